@@ -27,6 +27,7 @@ def swap_stream(rep, rng, n):
         root = sc["meta"]
         subs = [s2 for s2 in root["subs"] if s2["name"]]
         flags_ = [o for o in root["opts"] if o["isbool"] and o["type"][0] != "func" and not o.get("ns") and (o["long"] or (o["short"] and len(o["short"].decode("utf-8", "replace")) == 1))]
+        flags_ = [o for o in flags_ if o["long"] != b"help" and o["short"] != b"h"]      # help shows the command active at that point
         if not subs or not flags_:
             continue
         s2 = rng.choice(subs)
